@@ -1,6 +1,7 @@
 package main
 
 import (
+	"os"
 	"bytes"
 	"compress/zlib"
 	"encoding/hex"
@@ -89,8 +90,11 @@ type fioProg struct {
 	withID   bool
 	info     [3]string // Title, Author, custom value ("" = unset)
 	infoDate bool
+	infoX    string // full Info specification (fio_info.go); overrides info/infoDate when non-empty
 	layout   string
 	ops      []fioOp
+
+	createPath string // not part of the program text: write through pdf.Create(createPath, …) instead of NewWriter
 }
 
 var fioFilterByName = map[string]pdf.Filter{
@@ -128,6 +132,9 @@ func (p *fioProg) String() string {
 	var sb strings.Builder
 	fmt.Fprintf(&sb, "%d~%d~%d~%d~%d~%d~%s~%s~%s~%d~%s", int(p.version), b2i(p.human), b2i(p.seekable), b2i(p.encrypt), b2i(p.userPw), b2i(p.withID),
 		hexWire([]byte(p.info[0])), hexWire([]byte(p.info[1])), hexWire([]byte(p.info[2])), b2i(p.infoDate), hexWire([]byte(p.layout)))
+	if p.infoX != "" {
+		sb.WriteString("~" + p.infoX)
+	}
 	for _, op := range p.ops {
 		sb.WriteString("|")
 		fl := "-"
@@ -193,13 +200,16 @@ func fioUnwire(s string) (pdf.Object, error) {
 func fioParseProg(s string) (*fioProg, error) {
 	parts := strings.Split(s, "|")
 	h := strings.Split(parts[0], "~")
-	if len(h) != 11 {
+	if len(h) != 11 && len(h) != 12 {
 		return nil, errors.New("bad program header")
 	}
 	atoi := func(x string) int { n, _ := strconv.Atoi(x); return n }
 	p := &fioProg{version: pdf.Version(atoi(h[0])), human: h[1] == "1", seekable: h[2] == "1", encrypt: h[3] == "1", userPw: h[4] == "1", withID: h[5] == "1", infoDate: h[9] == "1"}
 	p.info = [3]string{string(fioUnhex(h[6])), string(fioUnhex(h[7])), string(fioUnhex(h[8]))}
 	p.layout = string(fioUnhex(h[10]))
+	if len(h) == 12 {
+		p.infoX = h[11]
+	}
 	for _, item := range parts[1:] {
 		f := strings.Split(item, "~")
 		op := fioOp{kind: f[0][0], same: -1, userLen: -1}
@@ -354,7 +364,13 @@ func fioExec(p *fioProg, gen func(st *fioExecState) bool) *fioResult {
 		plainBuf = &fioPlainBuf{}
 		sink = plainBuf
 	}
-	w, err := pdf.NewWriter(sink, p.version, p.opts())
+	var w *pdf.Writer
+	var err error
+	if p.createPath != "" {
+		w, err = pdf.Create(p.createPath, p.version, p.opts())
+	} else {
+		w, err = pdf.NewWriter(sink, p.version, p.opts())
+	}
 	if err != nil {
 		res.failedAt = -2
 		res.err = err
@@ -374,8 +390,11 @@ func fioExec(p *fioProg, gen func(st *fioExecState) bool) *fioResult {
 	if p.infoDate {
 		info.CreationDate = pdf.Date(time.Date(2024, 2, 29, 23, 59, 58, 0, time.FixedZone("", 3600)))
 	}
+	if p.infoX != "" {
+		info = fioInfoFromSpec(p.infoX)
+	}
 	w.GetMeta().Info = info
-	res.wantInfo = info
+	res.wantInfo = fioCloneInfo(info)
 
 	var stream io.WriteCloser
 	var streamRef pdf.Reference
@@ -550,9 +569,12 @@ func fioExec(p *fioProg, gen func(st *fioExecState) bool) *fioResult {
 		}
 	}()
 	res.xref, res.nextRef, _, _ = pdf.VerifWriterXRef(w)
-	if p.seekable {
+	switch {
+	case p.createPath != "":
+		res.file, _ = os.ReadFile(p.createPath)
+	case p.seekable:
 		res.file = seekBuf.buf
-	} else {
+	default:
 		res.file = plainBuf.buf
 	}
 	return res
@@ -956,21 +978,8 @@ func oracleFileRoundTrip(res *fioResult) (v []fioViolation) {
 	if meta.Catalog == nil || meta.Catalog.Pages != res.pages || string(meta.Catalog.PageLayout) != p.layout {
 		v = append(v, fioViolation{"catalog", fmt.Sprintf("catalog read back as %+v", meta.Catalog)})
 	}
-	want := res.wantInfo
-	emptyInfo := want.Title == "" && want.Author == "" && len(want.Custom) == 0 && want.CreationDate.IsZero()
-	switch {
-	case emptyInfo:
-		if meta.Info != nil {
-			v = append(v, fioViolation{"info", fmt.Sprintf("empty Info read back as %+v", meta.Info)})
-		}
-	case meta.Info == nil:
-		v = append(v, fioViolation{"info", "Info lost"})
-	default:
-		got := meta.Info
-		if got.Title != want.Title || got.Author != want.Author || got.Custom["FioKey"] != want.Custom["FioKey"] || len(got.Custom) != len(want.Custom) ||
-			!got.CreationDate.Equal(want.CreationDate) {
-			v = append(v, fioViolation{"info", fmt.Sprintf("Info %+v read back as %+v", want, got)})
-		}
+	for _, d := range fioCompareInfo(res.wantInfo, meta.Info) {
+		v = append(v, fioViolation{"info", d})
 	}
 	if (meta.Encryption != nil) != p.encrypt {
 		v = append(v, fioViolation{"encryption-meta", "encryption state not reported"})
